@@ -447,9 +447,7 @@ theorem prefix_array (C : Cfg) (rec : Nat → P Expr) (xs : List ArrayEntry) (li
 /-! ### map literals (`parse_map`) -/
 
 theorem mapLitOf_cons (x : MapEntry) (rest : List MapEntry) :
-    S.mapLitOf (x :: rest) = ((match x with
-      | .keyValue _ v => v.isLiteral
-      | .spread _ => false) && S.mapLitOf rest) := by
+    S.mapLitOf (x :: rest) = (S.entryLit x && S.mapLitOf rest) := by
   simp [S.mapLitOf]
 
 theorem mapLitOf_append (xs ys : List MapEntry) :
